@@ -47,6 +47,10 @@ def run(tier, seed, pid="C02"):
     # round-change heavy runs with a lagging member: justification rules J1/J2, F+1 jumps, DECIDED catch-up
     rnd += qc.random_schedules(seed, "c02rc", combos, 40 if thorough else 6, 500 if thorough else 300, pbyz=18,
                                ptimeout=12, plag=70, pdup=8)
+    # compare extension (a member's own Compare rejects a proposed value: no PREPARE of its own, but it still follows the
+    # others' quorums and must report what it prepared): agreement must survive the compareFailureRound deviations
+    rnd += qc.random_schedules(seed, "c02cmp", combos[:6], 30 if thorough else 4, 400 if thorough else 260,
+                               inputs_mode="any", ptimeout=10, pbyz=10, cfail_mode=True)
     vlib.conformance(o, qc.FAMILY, "QBFTTrace", qc.trace_cfg_of, "c02", rnd, tag="random", replay_of=qc.trace_to_schedule)
     vlib.conformance(o, qc.FAMILY, "QBFTTrace", qc.trace_cfg_of, "c02", qc.scenario_schedules(seed, "c02", 6 if thorough else 1),
                      tag="scenario", replay_of=qc.trace_to_schedule)
